@@ -1362,7 +1362,22 @@ impl W5Check {
             _ if nthreads >= 3 && rng.chance(1, 3) => {
                 // C11 templates: triples whose lock sets form the cycles listed in DESIGN appendix A
                 let rd = |rng: &mut Rng| TOp::VRead { v: 0, how: *rng.pick(&[0u8, 3, 2]), a: rng.next() as usize >> 16, b: rng.next() as usize >> 16 };
-                match rng.below(3) {
+                match rng.below(4) {
+                    3 => {
+                        // two readers of one compressed vector through different sources (file I/O below
+                        // the crossover, mmap / cursor above), its writer, and compaction in the background
+                        cfg.vec_kinds = vec![2 + rng.below(2), 9, 9];
+                        cfg.crossover = *rng.pick(&[0usize, 0, 1 << 30]);
+                        cfg.prefix = *rng.pick(&[2047usize, 2048, 5, 100]);
+                        threads[0].push(TOp::VPush { n: *rng.pick(&[1usize, 3, 2049]) });
+                        threads[0].push(if rng.chance(1, 2) { TOp::VWrite } else { TOp::VCommit });
+                        threads[1].push(if rng.chance(1, 2) { TOp::BgCompact } else { TOp::Compact });
+                        threads[1].push(TOp::VRead { v: 0, how: *rng.pick(&[1u8, 0, 3]), a: rng.next() as usize >> 16, b: rng.next() as usize >> 16 });
+                        threads[2].push(TOp::VRead { v: 0, how: *rng.pick(&[2u8, 2, 4]), a: rng.next() as usize >> 16, b: rng.next() as usize >> 16 });
+                        if rng.chance(1, 2) {
+                            threads[2].push(TOp::VRead { v: 0, how: rng.below(5) as u8, a: rng.next() as usize >> 16, b: rng.next() as usize >> 16 });
+                        }
+                    }
                     0 => {
                         cfg.vec_kinds = vec![2 + rng.below(2), 9, 9];
                         cfg.prefix = *rng.pick(&[2047usize, 2048, 5]);
